@@ -99,6 +99,11 @@ def run(ck):
     outs = semlib.tlc_outcomes(ck, progs, njobs=12)
     real = semlib.real_outcomes(ck, progs, nproc=8)
     twin = semlib.real_outcomes(ck, progs, nproc=8, extra={"nodce": True})
+    # the same programs through another API path (Clone + ReplaceBuiltinModule, which copies the bytecode) and with the host
+    # function's error wrapped in the host's own error type: the failure must be reported identically
+    via = semlib.real_outcomes(ck, progs, nproc=8, extra={"via": "clone-replace"})
+    hostp = [p for p in progs if "hostfail" in p["src"]]
+    wrapped = {m: semlib.real_outcomes(ck, hostp, nproc=8, extra={"hosterr": m}) for m in ("wrapnum", "wraptype")}
     nerr = 0
     kinds = {}
     depth = {}
@@ -123,6 +128,27 @@ def run(ck):
             ck.violation("sentinel:" + bad_sent[0], "error names %s but errors.Is does not recognise it (or vice versa): %s\n%s" % (
                 bad_sent[0], r["msg"], p["src"]), {"program": p, "real": r})
             continue
+        v3 = via[p["id"]]
+        # (Clone copies the globals with Object.Copy, which turns an immutable input into a mutable one: a program failing on such an
+        # input may end differently in the clone - that is not a matter of error positions, so only equal error kinds are compared)
+        if len(ms) == 1 and v3.get("k") == "runtime_error" and v3.get("kind") == r["kind"] and v3.get("msg") != r.get("msg"):
+            ck.violation("api-path-pos", "the same failure is reported differently after Clone + ReplaceBuiltinModule:\n%s\n---\n%s\n%s" % (
+                r.get("msg"), v3.get("msg"), p["src"]), {"program": p, "plain": r, "via_clone": v3})
+            continue
+        if r["kind"] == "host_error":
+            badw = None
+            for m, wr in wrapped.items():
+                w = wr.get(p["id"])
+                if w is None:
+                    continue
+                s_ = (w.get("sentinels") or {}).get("host_error") or {}
+                if w.get("kind") != "host_error" or not s_.get("is") or w.get("positions") != r.get("positions"):
+                    badw = (m, w)
+            if badw:
+                ck.violation("host-error-wrapped:" + badw[0], "a host error of the host's own type (chain contains %s) is not handed back intact: %s\n%s" % (
+                    "ErrWrongNumArguments" if badw[0] == "wrapnum" else "ErrInvalidArgumentType", str(badw[1].get("msg"))[:300], p["src"]),
+                    {"program": p, "plain": r, "wrapped": badw[1]})
+                continue
         t = twin[p["id"]]
         if len(ms) == 1 and t.get("msg") != r.get("msg"):
             ck.violation("twin-pos", "optimized and unoptimized code report different errors/positions:\n%s\n---\n%s\n%s" % (
